@@ -426,15 +426,34 @@ func vfDecay(ms int) time.Duration {
 
 // vfMetaStore is the application's PeerMetadataStore for the sequence-number validator.
 type vfMetaStore struct {
-	mu   sync.Mutex
-	m    map[peer.ID][]byte
-	puts []string // "author=value" in commit order
+	mu     sync.Mutex
+	m      map[peer.ID][]byte
+	puts   []string // "author=value" in commit order
+	hold   bool     // a slow store: reads park until released (events mhold / mrel)
+	parked []chan struct{}
 }
 
 func (s *vfMetaStore) Get(ctx context.Context, p peer.ID) ([]byte, error) {
 	s.mu.Lock()
+	if s.hold {
+		ch := make(chan struct{})
+		s.parked = append(s.parked, ch)
+		s.mu.Unlock()
+		select {
+		case <-ch:
+		case <-ctx.Done():
+			return nil, ctx.Err()
+		}
+		s.mu.Lock()
+	}
 	defer s.mu.Unlock()
 	return s.m[p], nil
+}
+
+func (s *vfMetaStore) state() string {
+	s.mu.Lock()
+	defer s.mu.Unlock()
+	return fmt.Sprintf("hold=%v parked=%d", s.hold, len(s.parked))
 }
 
 func (s *vfMetaStore) Put(ctx context.Context, p peer.ID, v []byte) error {
@@ -819,6 +838,23 @@ func (g *vfGW) apply(evFull string) {
 				for range (partialMessageRouter{g.n.gs}).MeshPeers(arg(1)) {
 				}
 			})
+		}
+	case "mhold":
+		// mhold / mrel -- the sequence-number validator's nonce store becomes slow: reads park until released
+		if g.meta != nil {
+			g.meta.mu.Lock()
+			g.meta.hold = true
+			g.meta.mu.Unlock()
+		}
+	case "mrel":
+		if g.meta != nil {
+			g.meta.mu.Lock()
+			g.meta.hold = false
+			for _, ch := range g.meta.parked {
+				close(ch)
+			}
+			g.meta.parked = nil
+			g.meta.mu.Unlock()
 		}
 	case "adddirect":
 		// adddirect:P / rmdirect:P -- the application tags / un-tags a peer as direct at run time
@@ -1269,6 +1305,9 @@ func (g *vfGW) canon() string {
 	}
 	ya, yp := g.yieldState()
 	fmt.Fprintf(&sb, "\nvalpending=%v held=%v yield-armed=%v yield-parked=%v", g.pendingVals(), vfKeys(g.held), ya, yp)
+	if g.meta != nil {
+		fmt.Fprintf(&sb, " store{%s}", g.meta.state())
+	}
 	return sb.String()
 }
 
